@@ -16,20 +16,20 @@ namespace ElfioVerif.Spec
 /-! ### fixed-width integer tables -/
 
 /-- the table with entries `vs`, each `w` bytes, in declared order `e` -/
-def encodeTable (e : Enc) (w : Nat) (vs : List Nat) : Bytes :=
+def encodeArrTable (e : Enc) (w : Nat) (vs : List Nat) : Bytes :=
   match vs with
   | [] => []
-  | v :: vs => encodeInt e w v ++ encodeTable e w vs
+  | v :: vs => encodeInt e w v ++ encodeArrTable e w vs
 
 /-- `k`-th entry of a table, if the table has one -/
 def tableEntry (e : Enc) (w : Nat) (bs : Bytes) (k : Nat) : Option Nat :=
   if (k + 1) * w ≤ bs.length then some (decodeInt e (slice bs (k * w) w)) else none
 
 @[simp] theorem encodeTable_length (e : Enc) (w : Nat) (vs : List Nat) :
-    (encodeTable e w vs).length = w * vs.length := by
+    (encodeArrTable e w vs).length = w * vs.length := by
   induction vs with
-  | nil => simp [encodeTable]
-  | cons v vs ih => simp [encodeTable, ih, Nat.mul_add, Nat.add_comm]
+  | nil => simp [encodeArrTable]
+  | cons v vs ih => simp [encodeArrTable, ih, Nat.mul_add, Nat.add_comm]
 
 /-! ### module information -/
 
@@ -102,38 +102,38 @@ structure Verdaux where
   deriving Repr, DecidableEq
 
 /-- unsigned field of `w` bytes at `off`, if it lies inside `bs` -/
-def field (e : Enc) (bs : Bytes) (off w : Nat) : Option Nat :=
+def tabField (e : Enc) (bs : Bytes) (off w : Nat) : Option Nat :=
   if off + w ≤ bs.length then some (decodeInt e (slice bs off w)) else none
 
 def decodeVerneed (e : Enc) (bs : Bytes) (off : Nat) : Option Verneed := do
-  let version ← field e bs off 2
-  let cnt ← field e bs (off + 2) 2
-  let file ← field e bs (off + 4) 4
-  let aux ← field e bs (off + 8) 4
-  let next ← field e bs (off + 12) 4
+  let version ← tabField e bs off 2
+  let cnt ← tabField e bs (off + 2) 2
+  let file ← tabField e bs (off + 4) 4
+  let aux ← tabField e bs (off + 8) 4
+  let next ← tabField e bs (off + 12) 4
   pure { version, cnt, file, aux, next }
 
 def decodeVernaux (e : Enc) (bs : Bytes) (off : Nat) : Option Vernaux := do
-  let hash ← field e bs off 4
-  let flags ← field e bs (off + 4) 2
-  let other ← field e bs (off + 6) 2
-  let name ← field e bs (off + 8) 4
-  let next ← field e bs (off + 12) 4
+  let hash ← tabField e bs off 4
+  let flags ← tabField e bs (off + 4) 2
+  let other ← tabField e bs (off + 6) 2
+  let name ← tabField e bs (off + 8) 4
+  let next ← tabField e bs (off + 12) 4
   pure { hash, flags, other, name, next }
 
 def decodeVerdef (e : Enc) (bs : Bytes) (off : Nat) : Option Verdef := do
-  let version ← field e bs off 2
-  let flags ← field e bs (off + 2) 2
-  let ndx ← field e bs (off + 4) 2
-  let cnt ← field e bs (off + 6) 2
-  let hash ← field e bs (off + 8) 4
-  let aux ← field e bs (off + 12) 4
-  let next ← field e bs (off + 16) 4
+  let version ← tabField e bs off 2
+  let flags ← tabField e bs (off + 2) 2
+  let ndx ← tabField e bs (off + 4) 2
+  let cnt ← tabField e bs (off + 6) 2
+  let hash ← tabField e bs (off + 8) 4
+  let aux ← tabField e bs (off + 12) 4
+  let next ← tabField e bs (off + 16) 4
   pure { version, flags, ndx, cnt, hash, aux, next }
 
 def decodeVerdaux (e : Enc) (bs : Bytes) (off : Nat) : Option Verdaux := do
-  let name ← field e bs off 4
-  let next ← field e bs (off + 4) 4
+  let name ← tabField e bs off 4
+  let next ← tabField e bs (off + 4) 4
   pure { name, next }
 
 /-- offset of the `k`-th Verneed record of the chain that starts at `off` -/
@@ -150,7 +150,7 @@ def verdefOff (e : Enc) (bs : Bytes) : Nat → Nat → Option Nat
     verdefOff e bs k (off + r.next)
 
 /-- NUL-terminated string at `idx` of a string table -/
-def strAt (tab : Bytes) (idx : Nat) : Option Bytes :=
+def tabStrAt (tab : Bytes) (idx : Nat) : Option Bytes :=
   let rest := tab.drop idx
   let s := rest.takeWhile (· ≠ 0)
   if s.length < rest.length then some s else none
@@ -170,8 +170,8 @@ def needView (e : Enc) (bs tab : Bytes) (k : Nat) : Option NeedView := do
   let off ← verneedOff e bs k 0
   let r ← decodeVerneed e bs off
   let a ← decodeVernaux e bs (off + r.aux)
-  let file ← strAt tab r.file
-  let name ← strAt tab a.name
+  let file ← tabStrAt tab r.file
+  let name ← tabStrAt tab a.name
   pure { version := r.version, file, hash := a.hash, flags := a.flags, other := a.other, name }
 
 structure DefView where
@@ -185,7 +185,7 @@ def defView (e : Enc) (bs tab : Bytes) (k : Nat) : Option DefView := do
   let off ← verdefOff e bs k 0
   let r ← decodeVerdef e bs off
   let a ← decodeVerdaux e bs (off + r.aux)
-  let name ← strAt tab a.name
+  let name ← tabStrAt tab a.name
   pure { flags := r.flags, ndx := r.ndx, hash := r.hash, name }
 
 end ElfioVerif.Spec
